@@ -984,6 +984,8 @@ class Interp:
         if isinstance(op, (ast.In, ast.NotIn)):
             res = self.contains(r, l, node, fi)
             return res if isinstance(op, ast.In) else not res
+        if isinstance(l, Opaque) or isinstance(r, Opaque):
+            raise self.err(f"comparison with a value the analysis does not model `{ast.unparse(node)[:60]}`", node, fi)
         l2, r2 = _cmp_norm(l), _cmp_norm(r)
         if isinstance(op, (ast.Eq, ast.NotEq)):
             if isinstance(l2, Rat) or isinstance(r2, Rat):
@@ -1003,6 +1005,8 @@ class Interp:
         raise self.err(f"ordering comparison of non-constants `{ast.unparse(node)[:60]}`", node, fi)
 
     def contains(self, container, item, node, fi):
+        if isinstance(item, Opaque):
+            raise self.err("membership test of a value the analysis does not model", node, fi)
         if isinstance(container, (tuple, list)):
             return any(_cmp_norm(x) == _cmp_norm(item) for x in container)
         if isinstance(container, (dict, set, frozenset)):
